@@ -77,7 +77,7 @@ def opGin (j : Json) : P Json := do
         let p2 ← asCards (← fld o "p2")
         if p1.length != g.p1.length || p2.length != g.p2.length || !(p1.all (· ∈ g.p1)) || !(p2.all (· ∈ g.p2))
             || !(g.p1.all (· ∈ p1)) || !(g.p2.all (· ∈ p2)) then
-          throw "reorder: not the cards of the hands"
+          continue      -- not the model's hands (the implementation has lost or gained cards): ignored, the difference shows in the next state
         g := { g with p1 := p1, p2 := p2 }
         continue
       let probe ← asBool (fldD o "probe" (Json.bool false))
